@@ -8,3 +8,5 @@ for p in $(python3 -c "import json;print(' '.join(c['property_id'] for c in json
   e=$(date +%s)
   echo "$p rc=$rc $((e-s))s $(echo "$out" | grep -c '^VIOLATION') violations; $(echo "$out" | tail -1)"
 done
+# the runtime-checked (replay) build must compile and run on the unchanged tree
+if HVC_RACOUT=1 /verif/bin/hvc rac lex,parse,analyze,run 'fn main() { println(1 + 2); }' 2>&1 | grep -q INFO-ACCEPTED; then echo "replay-build ok"; else echo "replay-build BROKEN"; fi
